@@ -105,7 +105,7 @@ pub fn random_safety(rng: &mut Rng, s_ids: &[usize], mode: CheckMode) -> SafetyD
     let nsp = rng.below(5);
     for _ in 0..nsp {
         let a = rng.pick(s_ids); let b = rng.pick(s_ids);
-        if a == b { continue; }
+        if a == b || special.contains_key(&(b as u16, a as u16)) { continue; }
         let v = match rng.below(3) { 0 => NEVER_COLLIDES, 1 => 0.0, _ => [0.02f32, 0.05, 0.15, 0.3][rng.below(4) as usize] };
         special.insert((a as u16, b as u16), v);
     }
